@@ -25,7 +25,9 @@ import (
 	"fmt"
 	"math"
 	"math/big"
+	"math/cmplx"
 	"os"
+	"sort"
 	"strconv"
 	"strings"
 	"sync"
@@ -37,6 +39,7 @@ import (
 	"github.com/tuneinsight/lattigo/v6/ring"
 	"github.com/tuneinsight/lattigo/v6/schemes/ckks"
 	"github.com/tuneinsight/lattigo/v6/utils"
+	"github.com/tuneinsight/lattigo/v6/utils/bignum"
 )
 
 func init() { register("C18", genC18) }
@@ -54,6 +57,7 @@ var c18CopyAllow = []string{
 func genC18(c *Ctx) {
 	c18HelperRot(c)
 	c18LtIndex(c)
+	c18DFTLayers(c)
 	c18LayoutRandom(c)
 	c18Defaults(c)
 	c18NoP(c)
@@ -195,6 +199,113 @@ func c18LtIndex(c *Ctx) {
 		})
 		c.Emit("lt_index "+c18MatArgs(lit, logN), out)
 		c.Count("lt_index")
+	}
+}
+
+// ------------------------------------------------------------------ dft_layers: exact entries of the fully split factorisation
+
+// c18DFTLayers reads the matrices of MatrixLiteral.GenMatrices for the fully split literal (one butterfly
+// layer per matrix) and recognises every entry as 0 or sigma*zeta^k (zeta the primitive 4n-th root,
+// sigma = scaling^(1/depth) real positive): the exponents are tied to the Lean model's layer tables.
+// Also (measured, real code only): every merged factorisation equals the product of its layers.
+func c18DFTLayers(c *Ctx) {
+	maxL := c.Scale(6, 9)
+	toC := func(z *bignum.Complex) complex128 {
+		re, _ := z[0].Float64()
+		im, _ := z[1].Float64()
+		return complex(re, im)
+	}
+	for _, enc := range []bool{true, false} {
+		for L := 1; L <= maxL; L++ {
+			n := 1 << L
+			levels := make([]int, L)
+			for i := range levels {
+				levels[i] = 1
+			}
+			typ := dft.HomomorphicDecode
+			sigma := 1.0
+			if enc {
+				typ = dft.HomomorphicEncode
+				sigma = math.Pow(1/float64(n), 1/float64(L))
+			}
+			lit := dft.MatrixLiteral{Type: typ, LogSlots: L, Levels: levels, Format: dft.Standard}
+			out := Try(func() string {
+				var ms []string
+				for _, m := range lit.GenMatrices(L+1, 128) {
+					var idx []int
+					for d := range m {
+						idx = append(idx, d)
+					}
+					sort.Ints(idx)
+					var ds []string
+					for _, d := range idx {
+						codes := make([]uint64, n)
+						for x := 0; x < n; x++ {
+							v := toC(m[d][x]) / complex(sigma, 0)
+							if cmplx.Abs(v) < 1e-9 {
+								codes[x] = uint64(4 * n)
+								continue
+							}
+							k := int(math.Round(cmplx.Phase(v)*float64(4*n)/(2*math.Pi))) % (4 * n)
+							if k < 0 {
+								k += 4 * n
+							}
+							if cmplx.Abs(v-cmplx.Rect(1, 2*math.Pi*float64(k)/float64(4*n))) > 1e-9 {
+								return "not-a-root"
+							}
+							codes[x] = uint64(k)
+						}
+						ds = append(ds, I(d)+":"+Vec(codes))
+					}
+					ms = append(ms, strings.Join(ds, ";"))
+				}
+				return strings.Join(ms, "/")
+			})
+			c.Emit(fmt.Sprintf("dft_layers enc=%s logSlots=%d", b01(enc), L), out)
+			c.Count("dft_layers")
+		}
+	}
+	// merged factorisations = product of the layers (dense matrices, float64), real code only
+	apply := func(m map[int][]*bignum.Complex, n int, x []complex128) []complex128 {
+		y := make([]complex128, n)
+		for d, v := range m {
+			for i := 0; i < n; i++ {
+				y[i] += toC(v[i]) * x[(i+d)&(n-1)]
+			}
+		}
+		return y
+	}
+	for t := 0; t < c.Scale(20, 200); t++ {
+		L := 2 + c.rng.Intn(c.Scale(5, 8))
+		n := 1 << L
+		levels := c18RandLevels(c, L)
+		depth := 0
+		for _, g := range levels {
+			depth += g
+		}
+		ones := make([]int, L)
+		for i := range ones {
+			ones[i] = 1
+		}
+		typ := dft.Type(c.rng.Intn(2))
+		merged := dft.MatrixLiteral{Type: typ, LogSlots: L, Levels: levels, Format: dft.Standard}.GenMatrices(L+1, 128)
+		full := dft.MatrixLiteral{Type: typ, LogSlots: L, Levels: ones, Format: dft.Standard}.GenMatrices(L+1, 128)
+		x := c18RandValues(c, n)
+		y1, y2 := x, x
+		for _, m := range merged {
+			y1 = apply(m, n, y1)
+		}
+		for _, m := range full {
+			y2 = apply(m, n, y2)
+		}
+		detail := ""
+		for i := range y1 {
+			if cmplx.Abs(y1[i]-y2[i]) > 1e-9*(1+cmplx.Abs(y2[i])) {
+				detail = fmt.Sprintf("slot %d differs", i)
+				break
+			}
+		}
+		c.Probe("merged_is_product", fmt.Sprintf("enc=%s logSlots=%d levels=%s measured=1", b01(typ == dft.HomomorphicEncode), L, IVec(levels)), "C18-dft-merge", detail)
 	}
 }
 
@@ -1062,6 +1173,52 @@ func c18Pipeline(c *Ctx, cfg c18Cfg) {
 		})
 		c.Emit("stages "+schedArgs, out)
 		c.Count("stages")
+	}
+
+	// ---- ScaleDown: message-ratio arithmetic (dropped primes, scaleUpBigint, rescaled primes, admissibility) on
+	// empty ciphertexts of every residual level and scales around the admissibility threshold
+	{
+		nq := res.QCount()
+		qs := paramsN2.Q()[:nq]
+		r := p.Mod1ParametersLiteral.LogMessageRatio
+		e := int(math.Round(math.Log2(float64(qs[0]))))
+		seen := map[int]bool{}
+		for _, ls := range []int{paramsN2.LogDefaultScale(), paramsN2.LogDefaultScale() - 3, paramsN2.LogDefaultScale() + 6, e - r - 1, e - r, e - r + 1, e - r + 2, e + 38 - r, e + 41 - r, 12} {
+			if ls < 1 || ls > 120 || seen[ls] {
+				continue
+			}
+			seen[ls] = true
+			for level := 0; level < nq; level++ {
+				ct := ckks.NewCiphertext(paramsN2, 1, level)
+				S := new(big.Float).SetPrec(256).SetMantExp(big.NewFloat(1), ls)
+				ct.Scale = rlwe.NewScale(S)
+				out := Try(func() string {
+					o, _, err := eval.ScaleDown(ct)
+					if err != nil {
+						return "err"
+					}
+					// out.Scale / S = n / den with den a product of primes q_{level'+1} ... q_k: smallest such k
+					ratio := new(big.Float).SetPrec(256).Quo(&o.Scale.Value, S)
+					den := big.NewInt(1)
+					for k := o.Level(); k <= level; k++ {
+						if k > o.Level() {
+							den.Mul(den, new(big.Int).SetUint64(qs[k]))
+						}
+						x := new(big.Float).SetPrec(256).Mul(ratio, new(big.Float).SetPrec(256).SetInt(den))
+						n, _ := new(big.Float).SetPrec(256).Add(x, big.NewFloat(0.5)).Int(nil)
+						diff := new(big.Float).Sub(x, new(big.Float).SetPrec(256).SetInt(n))
+						diff.Abs(diff)
+						if n.Sign() > 0 && diff.Cmp(new(big.Float).Quo(x, new(big.Float).SetMantExp(big.NewFloat(1), 100))) < 0 {
+							g := new(big.Int).GCD(nil, nil, n, den)
+							return fmt.Sprintf("%d,%s,%s", o.Level(), new(big.Int).Quo(n, g), new(big.Int).Quo(den, g))
+						}
+					}
+					return "unrecognised"
+				})
+				c.Emit(fmt.Sprintf("scaledown qs=%s logscale=%d ratio=%d level=%d", Vec(qs), ls, r, level), out)
+				c.Count("scaledown")
+			}
+		}
 	}
 
 	// ---- batches of sparse ciphertexts, original evaluator and a ShallowCopy
